@@ -52,7 +52,7 @@ def snapshot(root):
     return out
 
 
-FILE_NAMES = ["prog.asm", "blink.v2.asm", "noext", "My Prog.ASM", "a.b.c.s"]
+FILE_NAMES = ["prog.asm", "blink.v2.asm", "noext", "My Prog.ASM", "a.b.c.s", "caf\udce9.asm", "\udcff\udcfe"]      # the last two: bytes that are not UTF-8 (surrogate-escaped)
 
 
 def stem_of(fname):
@@ -231,10 +231,11 @@ def check(prop, tier, seed):
                          "fulltext": (p.stdout + p.stderr).decode("utf-8", "replace")[-2000:]})
             # what the library builds for the same source, same working directory, same include set
             libroot = scratch.sub("l%d" % i)
-            files = {} if srcname == "missing-source" else {"proj/" + fname: SOURCES[srcname]}
+            lname = fname if fname.isprintable() else "prog.asm"       # the library's result does not depend on the name
+            files = {} if srcname == "missing-source" else {"proj/" + lname: SOURCES[srcname]}
             libjobs.append({"k": "file", "id": i, "root": libroot, "files": files, "dirs": ["proj"],
                             "cwd": "" if srcform != "rel-here" else "proj",
-                            "main": {"abs": libroot + "/proj/" + fname, "rel-dir": "proj/" + fname, "rel-here": fname}[srcform],
+                            "main": {"abs": libroot + "/proj/" + lname, "rel-dir": "proj/" + lname, "rel-here": lname}[srcform],
                             "paths": [stdinc]})
         lib = run_jobs(libjobs, workers=1, env=env)
         events = []
